@@ -45,6 +45,8 @@ def run(ctx):
     pairing_instances(ctx, em, "R04.6")
     ctx.rule("R04.5", "insurance draw for a shortfall is added to prepaid_bad_debt with the same operand; mutated State is stored", 6)
 
+    r04_7(ctx, em)
+
     close = em.reply_step("ClosePosition>id4")
     pclose = em.reply_step("ClosePosition>id5")
     liq = em.reply_step("Liquidate>id6")
@@ -225,3 +227,58 @@ def run(ctx):
             ctx.inst("R04.5", "state-flushed:%s:%s" % (short_fn(st.fn), st.label), bad is None, st.fn.where(),
                      "%d success paths mutate State through a bad-debt helper; %s" % (n, "each stores the mutated State afterwards" if bad is None else
                         "a success path drops the mutated State (prepaid_bad_debt update lost)"))
+
+
+def _sign_tested(ix, em, st, q, X):
+    """the path facts (own, or those of callees q relies on) contain a sign test of the signed quantity X:
+    a comparison with X as one operand, or Integer::is_negative / is_positive of X"""
+    nx = N(ix, st.c(X))
+
+    def pred(fs):
+        for (at, o) in fs:
+            if tag(at) not in ("call", "op") or o not in (True, False):
+                continue
+            short = str(payload(at)[0]).split("::")[-1]
+            ks = kids(at)
+            if short in ("lt", "gt", "le", "ge") and len(ks) == 2 and nx in (N(ix, ks[0]), N(ix, ks[1])):
+                return True
+            if short in ("is_negative", "is_positive") and len(ks) == 1 and N(ix, ks[0]) == nx:
+                return True
+        return False
+    return guards.path_satisfies(ix, q, pred, st.m)
+
+
+def r04_7(ctx, em):
+    """a payout of |X| for a signed X believes the sign of X is known: every transfer whose amount is the magnitude of
+    a signed quantity needs a sign test of that quantity on the emitting path (the whole close is the one exception:
+    X = remain_margin.margin + tmp.unrealized_pnl with the record's unrealized_pnl pinned to 0 by R04.3)"""
+    ix = ctx.ix
+    from .c03 import transfers_of
+    ctx.rule("R04.7", "a transfer of the magnitude |X| of a signed quantity is preceded by a sign test of X (no bad debt paid out as if it were equity)", 4)
+    for ckey in sorted(em.chains):
+        st = em.chains[ckey][-1]
+        sites = {}
+        for q in st.ok_paths():
+            for s in em.emitted(q):
+                for (k, payer, recv, amount) in transfers_of(ix, s):
+                    if recv is None or amount is None:
+                        continue
+                    n = N(ix, amount)
+                    if not (isinstance(n, tuple) and len(n) == 2 and n[0] == "mag"):
+                        continue
+                    X = None
+                    for z in sym.walk(ix.inline(amount)):
+                        if N(ix, z) == n[1]:
+                            X = z
+                            break
+                    if X is None:
+                        sites.setdefault(norm.show(n)[:160], []).append("operand of the magnitude not found")
+                        continue
+                    whole_close = ckey == "ClosePosition>id4" and match(("iadd", ("pos", anyhole("rm.margin")), em.tmp_leaf("unrealized_pnl")), n[1]) is not None
+                    ok = whole_close or _sign_tested(ix, em, st, q, X)
+                    sites.setdefault(norm.show(n)[:160], []).append(None if ok else "no sign test of the signed amount on a path that pays its magnitude to %s" % sym.show(recv, 4))
+        if not sites:
+            continue
+        bad = [b for bs in sites.values() for b in bs if b]
+        ctx.inst("R04.7", "signed-payout:%s" % ckey, not bad, st.fn.where(),
+                 (bad[0] + " (amounts: %s)" % sorted(sites)[:2]) if bad else "%d magnitude-of-signed amounts, each sign-tested on its path (or the whole-close amount with unrealized_pnl pinned to 0)" % len(sites))
